@@ -229,5 +229,5 @@ def oracle(case):
 
 SUBS = [
     Sub("C03.definition+decomposition+metamorphic", oracle, strategy=cases,
-        n=(3000, 20000), shards=(1, 8)),
+        n=(750, 12000), shards=(4, 16)),
 ]
